@@ -575,7 +575,7 @@ def case_strategy(draw, ctx=None):
 
 
 def shard(ctx):
-    drive(ctx, case_strategy(ctx), check_case, ctx.share(500, 25000))
+    drive(ctx, case_strategy(ctx), check_case, ctx.share(1000, 25000))
 
 
 def replay(ctx, case):
